@@ -496,7 +496,11 @@ func checkNil(c *Ctx, scope []*ssa.Function) {
 			}
 			if g == nil {
 				g = NewGate(c.P)
-				g.Inline = inlineOnly()
+				// nil-safe accessors (x.Len() on a nil-able x) are expanded: "x.Len() != 0" then
+				// carries "x != nil"
+				g.Inline = func(_, callee *ssa.Function, depth int) bool {
+					return depth <= 2 && callee.Signature.Recv() != nil && len(callee.Blocks) <= 6 && c.P.IsLibFunc(callee) && isNilSafe(callee)
+				}
 				if pp := c.P.Method("rules", "NetworkRule", "preparePattern"); pp != nil {
 					g.NoInline[FuncName(pp)] = true
 				}
@@ -518,6 +522,15 @@ func checkNil(c *Ctx, scope []*ssa.Function) {
 			if why, ok := contracts[shortFn(fn)+"|"+name]; ok {
 				c.OK("C12.R2", key, in.Pos(), "contract: "+why)
 				return
+			}
+			// the rewrite-exception code: every function that can only be reached from
+			// DNSResult.DNSRewrites works on rules taken from DNSRewritesAll (verified below to
+			// keep only rules with a rewrite) and on an exception whose rewrite was tested
+			if name == "NetworkRule.DNSRewrite" {
+				if dr := c.P.Method("", "DNSResult", "DNSRewrites"); dr != nil && fn != dr && onlyReachedFrom(c.P, fn, dr) {
+					c.OK("C12.R2", key, in.Pos(), "contract: "+contracts["matchException|NetworkRule.DNSRewrite"])
+					return
+				}
 			}
 			// regex: established by preparePattern() == 1
 			if name == "NetworkRule.regex" {
@@ -1050,4 +1063,86 @@ func monoIn(u *U, e, idx *E) (int, bool) {
 		return monoIn(u, e.Args[0], idx)
 	}
 	return 0, false
+}
+
+// onlyReachedFrom reports whether every chain of callers of fn (static calls,
+// closures, method values; through unexported functions) starts at root.
+func onlyReachedFrom(p *Prog, fn, root *ssa.Function) bool {
+	cg := p.CG()
+	seen := map[*ssa.Function]bool{}
+	var up func(f *ssa.Function, depth int) bool
+	up = func(f *ssa.Function, depth int) bool {
+		if f == root {
+			return true
+		}
+		if seen[f] {
+			return true
+		}
+		seen[f] = true
+		if depth > 8 {
+			return false
+		}
+		// closures: reached through their parent
+		if f.Parent() != nil {
+			return up(f.Parent(), depth+1)
+		}
+		if f.Object() != nil && f.Object().Exported() && f.Synthetic == "" {
+			return false
+		}
+		n := cg.Nodes[f]
+		if n == nil || len(n.In) == 0 {
+			return false
+		}
+		viaLibrary := false
+		for _, e := range n.In {
+			if e.Caller == nil || e.Caller.Func == nil {
+				return false
+			}
+			cal := e.Caller.Func
+			if !p.IsRepoFunc(cal) && cal.Synthetic == "" {
+				// called back by a library function (slices.DeleteFunc): attribute to whoever passed it
+				viaLibrary = true
+				continue
+			}
+			if !up(cal, depth+1) {
+				return false
+			}
+		}
+		if viaLibrary {
+			// every repository function that takes f as a value must itself be reached from root only
+			users := 0
+			for _, user := range p.AllLibFuncs() {
+				uses := false
+				eachInstr(user, func(_ *ssa.BasicBlock, in ssa.Instruction) {
+					if mc, ok := in.(*ssa.MakeClosure); ok && mc.Fn == ssa.Value(f) {
+						uses = true
+					}
+					if _, isCall := in.(ssa.CallInstruction); isCall {
+						for _, a := range in.(ssa.CallInstruction).Common().Args {
+							if a == ssa.Value(f) {
+								uses = true
+							}
+						}
+						return
+					}
+					for _, op := range in.Operands(nil) {
+						if op != nil && *op == ssa.Value(f) {
+							uses = true
+						}
+					}
+				})
+				if uses {
+					users++
+					if !up(user, depth+1) {
+						return false
+					}
+				}
+			}
+			if users == 0 {
+				return false
+			}
+		}
+		return true
+	}
+	return up(fn, 0)
 }
